@@ -37,10 +37,14 @@ class Leaf:
 
 
 class PathEnum:
-    def __init__(self, fn, facts, max_paths=20000, start_env=None, versioned=False):
+    def __init__(self, fn, facts, max_paths=20000, start_env=None, versioned=False, frame="", depth=0, inline_new=True):
         self.fn = fn
         self.facts = facts
         self.versioned = versioned
+        self.frame = frame          # non-empty inside an inlined callee: renames its locals
+        self.depth = depth
+        self.cont = None            # continuation invoked at `return` of an inlined callee
+        self.inline_new = inline_new and not versioned
         self.max_paths = max_paths
         self.leaves = []
         self.start_env = start_env or {}
@@ -74,7 +78,7 @@ class PathEnum:
                 if v and proj and proj[0]["k"] == "deref":
                     t = ("argv", l, v)
             else:
-                t = ("var", l)
+                t = ("var", ("%s:%d" % (self.frame, l)) if self.frame else l)
             rest = proj
         for e in rest:
             k = e["k"]
@@ -212,6 +216,9 @@ class PathEnum:
                 bb = t["target"]
                 continue
             if k == "return":
+                if self.cont is not None:
+                    self.cont(env, conds, trace, events)
+                    return
                 self.leaves.append(Leaf("return", env, conds, trace, events, bb))
                 return
             if k in ("unreachable", "resume", "terminate"):
@@ -241,6 +248,9 @@ class PathEnum:
                 else:
                     path = callee_path(t)
                 ct = ("call", path, args, bb)
+                if self.inline_new and self.depth < 3 and path in self.facts.fns and path not in known_fns() and t.get("target") is not None:
+                    self._inline(path, args, t, env, conds, trace, events, onpath, bb)
+                    return
                 events = events + [("call", bb, None, path, ct, t)]
                 # `?` on a literal Ok/Err folds
                 if path == "std::ops::Try::branch" and args and args[0][0] == "agg" and args[0][2] in ("Ok", "Err") and adt_base(args[0][1]) == "std::result::Result":
@@ -250,6 +260,8 @@ class PathEnum:
                         ct = ("agg", "std::ops::ControlFlow", "Break", (args[0],))
                 elif path == "std::ops::FromResidual::from_residual" and args and args[0][0] == "agg" and args[0][2] == "Err":
                     ct = args[0]
+                elif path == "std::ops::FromResidual::from_residual" and ((c.get("self_ty") or {}).get("path") == "std::option::Option"):
+                    ct = ("agg", "std::option::Option", "None", ())  # `?` on an Option propagates None
                 # a callee that receives &mut to a tracked place may change it
                 for a in t["args"]:
                     self._havoc_mut(env, a, path)
@@ -295,6 +307,48 @@ class PathEnum:
                     self._walk(ob, dict(env), conds + [(d, ("ne", tuple(vals)), bb)], trace, events + [("cond", bb, None, d, ("ne", tuple(vals)))], onpath)
                 return
             raise AnalysisError("unsupported terminator %s in %s" % (k, fn.loc(bb)))
+
+    def _inline(self, path, args, t, env, conds, trace, events, onpath, bb):
+        """A crate-local function that did not exist when the rules were written (a helper introduced by a
+        refactoring) is traversed, not treated as an opaque call: its body is walked with its parameters
+        bound to the actual argument terms, and the walk resumes in the caller at each of its returns."""
+        callee = self.facts.fns[path]
+        child = PathEnum(callee, self.facts, self.max_paths, None, self.versioned, frame=(self.frame + "/" if self.frame else "") + "%s@%d" % (path.rsplit("::", 1)[-1], bb), depth=self.depth + 1)
+        child.leaves = self.leaves
+        cenv = {}
+        for i, a in enumerate(args):
+            cenv["_%d" % (i + 1)] = a
+        caller = self
+        target = t["target"]
+        dest = t["dest"]
+
+        def cont(cenv2, conds2, trace2, events2):
+            env2 = dict(env)
+            # effects through `&mut` parameters: writes to (*_k)... in the callee are writes to what _k points at
+            for k, v in cenv2.items():
+                if not k.startswith("(*_"):
+                    continue
+                num = k[3:].split(")")[0]
+                if not num.isdigit() or int(num) > len(args):
+                    continue
+                actual = args[int(num) - 1]
+                rest = k[len("(*_%s)" % num):]
+                base = None
+                if actual[0] in ("arg",) and 1 <= actual[1] <= caller.fn.nargs and not caller.frame:
+                    base = "(*_%d)" % actual[1]
+                elif actual[0] == "ref" and actual[1][0] == "var" and isinstance(actual[1][1], int):
+                    base = "_%d" % actual[1][1]
+                elif actual[0] == "ref" and actual[1][0] == "field" and actual[1][1] == ("deref", ("arg", 1)) and not caller.frame:
+                    base = "(*_1).%s" % actual[1][3]
+                if base is not None:
+                    caller._kill_prefix(env2, base + rest)
+                    env2[base + rest] = v
+            ret = cenv2.get("_0", ("unknown", "unset"))
+            caller._assign(env2, dest, ret)
+            caller._walk(target, env2, conds2, trace2, events2 + [("inlined-return", bb, None, path, ret)], onpath)
+
+        child.cont = cont
+        child._walk(0, cenv, conds, trace, events + [("inlined-call", bb, None, path, ("call", path, args, bb), t)], frozenset())
 
     def _track_ref(self, env, dest, rv):
         """Remember which local a `&mut` temporary points at (side table inside env)."""
@@ -347,6 +401,21 @@ class PathEnum:
                 l = int(key[1:])
                 base = ("arg", l) if 1 <= l <= self.fn.nargs else ("var", l)
             env[key] = ("mut", base, path)
+
+
+_KNOWN = None
+
+
+def known_fns():
+    """Functions that existed when the rules were written (frozen list).  Rules name some of them as
+    anchors; any crate-local function NOT in this list is a later addition and is traversed inline."""
+    global _KNOWN
+    if _KNOWN is None:
+        import json
+        import os
+        with open(os.path.join(os.path.dirname(__file__), "known_fns.json")) as fh:
+            _KNOWN = set(json.load(fh))
+    return _KNOWN
 
 
 def term_place_key(t):
